@@ -37,6 +37,23 @@ def _scalar_nodes(text):
         except Exception:
             pass
     return out
+def _compose_case(d, text):
+    """the node graphs of `text`, composed with the back-end the case was run with (the two scanners differ on a few texts: a tab inside a plain
+    scalar, a tag glued to a flow indicator); the other back-end is the fall-back when the first cannot read the text at all"""
+    import yaml
+    c = (d.get('loader') or '').startswith('C') or d.get('backend') == 'c'
+    order = [getattr(yaml, 'CSafeLoader', None), yaml.SafeLoader] if c else [yaml.SafeLoader, getattr(yaml, 'CSafeLoader', None)]
+    best = []
+    for L in order:
+        if L is None: continue
+        got = []
+        try:
+            for n in yaml.compose_all(text, Loader=L): got.append(n)      # the documents composed before an error are kept
+            return got
+        except Exception:
+            if len(got) > len(best): best = got
+    return best
+
 def _doc_case(d): return d.get('loader') is not None or d.get('backend') is not None or d.get('form') is not None
 
 def int_without_digits(d):
@@ -248,16 +265,21 @@ def tag_prefix_needs_escape(d):
     ok = set("-;/?:@&=+$,_.~*'()[]!") | set('abcdefghijklmnopqrstuvwxyzABCDEFGHIJKLMNOPQRSTUVWXYZ0123456789')
     return any(e[0] == 'DS' and any(any(ch not in ok for ch in p[1:]) for h, p in e[3]) for e in evs)
 
+def _empty_scalar_root(d):
+    """node level (serialize_all of composed graphs): some document root of d['text'] is an empty scalar; the text is composed with the back-end
+    the case was run with (LibYAML reads some texts the Python scanner rejects, e.g. a tab inside a plain scalar)"""
+    import yaml
+    try: roots = _compose_case(d, d['text'])
+    except Exception: return False
+    return any(isinstance(n, yaml.ScalarNode) and n.value == '' for n in roots if n is not None)
+
 def empty_plain_root_with_tag(d):
     """a document whose root is a scalar with empty text, a tag and implicit[0] set (the tag may be elided in plain style):
     the emitter neither forces '---' (check_empty_document only looks at untagged scalars) nor writes anything for the empty
     plain scalar, so the document text is empty / just '...'."""
     if d.get('kind') in ('count_differs', 'dump_unreadable', 'roundtrip_differs') and not d.get('events') and d.get('text') is not None and d.get('docs') is None and d.get('value') is None:
         # node level (serialize_all of composed graphs): some document root is an empty scalar whose tag the resolver re-derives
-        import yaml
-        try: roots = [n for n in yaml.compose_all(d['text'], Loader=yaml.SafeLoader)]
-        except Exception: return False
-        return any(isinstance(n, yaml.ScalarNode) and n.value == '' for n in roots if n is not None)
+        return _empty_scalar_root(d)
     if d.get('kind') not in ('emit_unparsable', 'emit_parse_differs', 'count_differs') or not d.get('events'): return False
     if d.get('kind') == 'emit_unparsable' and not re.search(r"expected the node content|did not find expected node content|expected '<document start>'|did not find expected <document start>", _w(d)): return False
     if d.get('kind') == 'emit_parse_differs' and not re.search(r'event types|events emitted', _w(d)): return False
@@ -293,6 +315,8 @@ def libyaml_empty_plain_root(d):
         return False
     if d.get('docs') is not None:
         return any(x == 'S e' or x == 'ROOT S e' for x in d['docs']) and not (_opt(d, 'explicit_start') or _opt(d, 'canonical') or _opt(d, 'default_style') in ('"', "'"))
+    if d.get('kind') in ('count_differs', 'dump_unreadable', 'roundtrip_differs') and d.get('text') is not None and d.get('value') is None:
+        return _empty_scalar_root(d)             # node level: serialize_all of composed graphs through the LibYAML emitter
     return False
 
 _SCALAR_CONVERTERS = {'int': 'int', 'python/int': 'int', 'python/long': 'int', 'float': 'float', 'python/float': 'float', 'bool': 'bool', 'python/bool': 'bool',
@@ -326,7 +350,7 @@ def explicit_tag_unsuitable_payload(d):
         elif isinstance(n, yaml.MappingNode):
             for k, v in n.value: walk(k); walk(v)
     try:
-        for n in _alive(yaml.compose_all(text, Loader=yaml.SafeLoader)):
+        for n in _alive(_compose_case(d, text)):
             if n is not None: walk(n)
     except Exception:
         pass
@@ -376,7 +400,7 @@ def merge_source_tag_ignored(d):
                 walk(k, False)
                 walk(v, k.tag == 'tag:yaml.org,2002:merge' and isinstance(v, (yaml.MappingNode, yaml.SequenceNode)))
     try:
-        for n in _alive(yaml.compose_all(d["text"], Loader=yaml.SafeLoader)):
+        for n in _alive(_compose_case(d, d["text"])):
             if n is not None: walk(n, False)
     except Exception: return False
     return foreign_merge[0] and not foreign_elsewhere[0]
@@ -409,7 +433,7 @@ def value_key_tag_ignored(d):
                 if k.tag == P + 'value': first = False
                 walk(v, is_value and isinstance(v, (yaml.ScalarNode, yaml.MappingNode)))
     try:
-        for n in _alive(yaml.compose_all(d["text"], Loader=yaml.SafeLoader)):
+        for n in _alive(_compose_case(d, d["text"])):
             if n is not None: walk(n, False)
     except Exception: return False
     return here[0] and not elsewhere[0]
